@@ -237,3 +237,12 @@ def run(chk: Check, repo: Repo) -> None:
     chk.ob("registry-dispatch-kind", m.fn["process"].site(), all(not x.env.get("trace") and x.end_kind == "exit" for x in pp), "telegrams to individual addresses reach no device", key="registry|individual")
     chk.rule("E5 census of registry mutations; E4 guard dominance; abstract evaluation of add/remove/process over abstract list/dict values for all histories of <= 4 operations vs the naive scan")
     chk.assume("a device's group_addresses() is fixed after creation (as the code comments state) and hashable/equal by value")
+    # dispatch walks a snapshot: Device.process runs device callbacks (after_update -> device_updated_cbs), and those
+    # may add or remove devices - on the live index list that shifts the iteration: a registered device is skipped or a
+    # re-added one processed twice
+    from .common_rules import is_snapshot_of
+    pr = repo.func(M, "Devices.process")
+    loops = [n for n in walk_local(pr.node) if isinstance(n, ast.For) and any(isinstance(c, ast.Call) and call_name(c) == "self.devices_by_group_address" for c in ast.walk(n.iter))]
+    ym, yexpr, _ = _yield_from_expr(repo)
+    snap = is_snapshot_of(yexpr) or (len(loops) == 1 and is_snapshot_of(loops[0].iter))
+    chk.ob("dispatch-walks-a-snapshot-of-the-registry", ym.site(), len(loops) == 1 and snap, f"Devices.process iterates `{ast.unparse(loops[0].iter) if loops else '?'}`, which yields from `{ast.unparse(yexpr)}`" + ("" if snap else " - the live list that async_add / async_remove (callable from a device callback during dispatch) mutate"), key="snapshot|process")
